@@ -27,6 +27,32 @@ ASSUMPTIONS = [
 STATUSES = {"success", "failure", "unreachable", "pending"}
 
 
+@__import__("hypothesis").strategies.composite
+def forced_create_case(draw):
+    """node-file-create with force: true (no shipped scenario uses it) on every host: on a file the scenario declares,
+    and twice in a row on a new one - a forced create of something that exists replaces it and answers normally."""
+    from hypothesis import strategies as st_
+
+    from .. import gen_scenario
+
+    c = draw(gen_case_strategy(max_ops=16))
+    _, meta = gen_scenario.build(c["spec"])
+    n0 = len(meta["actions"])
+    more = []
+    for h in meta["hosts"]:
+        for fn in (h["files"][:1] or []) + ["new.txt"]:
+            more.append({"action": "node-file-create", "cat": "file",
+                         "options": {"node_name": h["name"], "folder_name": "docs", "file_name": fn, "force": True}})
+    c["more_actions"] = more
+    ops = list(c["ops"])
+    for _ in range(draw(st_.integers(1, 4))):
+        k = n0 + draw(st_.integers(0, len(more) - 1))
+        at = draw(st_.integers(0, len(ops)))
+        ops[at:at] = [["step", k]] * draw(st_.integers(1, 2))
+    c["ops"] = ops
+    return c
+
+
 def run_case(case: Dict) -> CaseResult:
     res = CaseResult()
     d = Driver(case)
@@ -142,6 +168,7 @@ def worker(ctx: Ctx):
         ctx.extra["shipped_scenarios_used"] = ", ".join(paths)
     q = ctx.tier == "quick"
     hyp_run(ctx, gen_case_strategy(max_ops=30), run_case, 60 if q else 600, sub=0)
+    hyp_run(ctx, forced_create_case(), run_case, 10 if q else 100, sub=4)
     hyp_run(ctx, shipped_case_strategy(paths, max_ops=25), run_case, 16 if q else 200, sub=1)
     hyp_run(ctx, folder_case_strategy(small_only=q, max_ops=24), run_case, 3 if q else 30, sub=2)
     slow = ("uc7", "tap00", "nmap")  # long tails on the big scenarios only in the thorough tier
